@@ -611,7 +611,8 @@ impl Engine for CliSim {
             let (ok, msg) = jj(&args, &cwd);
             let first_line = msg.lines().find(|l| !l.trim().is_empty()).unwrap_or("").to_string();
             note!("jj[{ws_name}] {} -> {} | {}", args.join(" "), if ok { "ok" } else { "failed" }, &first_line[..first_line.len().min(120)]);
-            if msg.contains("stale") {
+            let recovered_stale = msg.contains("stale");
+            if recovered_stale {
                 out.fault("stale_workspace", 1);
                 nontrivial = true;
                 // bring the workspace up to date, as a user would
@@ -682,10 +683,20 @@ impl Engine for CliSim {
             if immut && judged_immutable && at_op.is_none() {
                 let vis_after = visible(&repo_after);
                 if let Some(lost) = immutable_before.iter().find(|c| !vis_after.contains(*c)) {
+                    // Known finding (known_findings.jsonl): `jj workspace update-stale`
+                    // snapshots the stale working copy as of the *older* operation it
+                    // was last updated to; a commit made immutable since then (from
+                    // another workspace) is amended by that snapshot and the merge of
+                    // the two operations keeps the rewrite.
+                    let (inv, key) = if recovered_stale {
+                        ("immutable_commit_rewritten_by_stale_workspace_snapshot", "clisim:c42:stale_workspace_snapshot_rewrites_commit_made_immutable_since")
+                    } else {
+                        ("immutable_commit_rewritten", "clisim:immutable_commit_rewritten")
+                    };
                     out.violate(
                         "C42",
-                        "immutable_commit_rewritten",
-                        "clisim:immutable_commit_rewritten".into(),
+                        inv,
+                        key.into(),
                         format!("commit {} was immutable (ancestor of trunk/tags) before `jj {}` and is no longer visible after it", &lost.hex()[..12], args.join(" ")),
                         seq,
                     );
@@ -711,6 +722,13 @@ impl Engine for CliSim {
                 let before: HashSet<&String> = older_ops.iter().collect();
                 all_ops(&loader, repo_after.operation()).iter().filter(|o| !before.contains(&o.id().hex())).count()
             };
+            // did the command's operation land directly on the operation that was
+            // the head before it (no snapshot or reconcile operation in between)?
+            let directly_on_head_before = repo_after
+                .operation()
+                .parents()
+                .block_on()
+                .is_ok_and(|ps| ps.len() == 1 && ps[0].id() == repo_before.op_id());
             match kind {
                 Kind::Normal => {
                     if at_op.is_some() || !ok || ignore_wc || in_ws2 || undone > 0 {
@@ -729,8 +747,17 @@ impl Engine for CliSim {
                 Kind::Undo => {
                     out.fault("undo_redo", 1);
                     nontrivial = true;
-                    if ok {
-                        if undone == 0 {
+                    if ok && !directly_on_head_before {
+                        // a snapshot operation got between (edits that no earlier
+                        // command had snapshotted): the command undid something
+                        // else than the model assumes; not judged
+                        segment_ops = 0;
+                        undone = 0;
+                        anchor = None;
+                    } else if ok {
+                        // the anchor is the head when the first undo of this chain
+                        // ran; it stays while undos and redos alternate
+                        if anchor.is_none() {
                             anchor = Some(repo_before.operation().clone());
                         }
                         undone += 1;
@@ -749,7 +776,7 @@ impl Engine for CliSim {
                 }
                 Kind::Redo => {
                     out.fault("undo_redo", 1);
-                    if ok && undone > 0 {
+                    if ok && undone > 0 && directly_on_head_before {
                         undone -= 1;
                         match expected_core(&anchor, undone) {
                             Some(want) if core_after != want => {
